@@ -295,9 +295,12 @@ Record led := mkLed {
   silent_known : list N;       (* requests the handle accepted (Ok) and the manager then refused for the
                                   connection limit / an address check: known finding class 2 *)
   silent_bad : list N;         (* requests the handle accepted that led to nothing for no such reason *)
-  fail_log : list N            (* connection ids of the OpenFailure events so far (one failed address each) *)
+  fail_log : list N;           (* connection ids of the OpenFailure events so far (one failed address each) *)
+  acc_failed : list N;         (* connections the transport could not start: accept() returned Err, or the
+                                  accept future resolved to Err (the protocols never saw them) *)
+  accf_peers : list N          (* the peers of those connections *)
 }.
-Definition led0 := mkLed [] [] [] [] [] [] [] [] [] [] [] [].
+Definition led0 := mkLed [] [] [] [] [] [] [] [] [] [] [] [] [] [].
 
 Definition calls_of (k : N) (o : obs) : list N :=
   map (fun x : N * (N * N) => fst (snd x)) (filter (fun x : N * (N * N) => fst x =? k) (o_calls o)).
@@ -328,7 +331,7 @@ Definition dial_target (L : limits) (e : ev) : option N :=
   end.
 Definition is_handle_ev (e : ev) : bool := match e with HDialPeer _ _ _ _ | HDialAddr _ _ => true | _ => false end.
 
-Definition led_step (L : limits) (prev : option obs) (e : ev) (o : obs) (g : led) : led :=
+Definition led_step (L : limits) (prev : option obs) (e : ev) (o : obs) (g : led) (l : live_t) : led :=
   let po := pobs prev in
   let ret_ok := o_ret o =? 1 in
   let fails := match e with
@@ -372,11 +375,24 @@ Definition led_step (L : limits) (prev : option obs) (e : ev) (o : obs) (g : led
          | _ => allocated g end)
         ((if excused then silent else []) ++ silent_known g)
         ((if excused then [] else silent) ++ silent_bad g)
-        (match e with TrOpenFailure c _ _ => [c] | _ => [] end ++ fail_log g).
+        (match e with TrOpenFailure c _ _ => [c] | _ => [] end ++ fail_log g)
+        (match e with
+         | TrEstablished _ c _ _ true => if has_call 5 c o then [c] else []
+         | AcceptDone c false => if mem c (owed_acc g) then [c] else []
+         | _ => [] end ++ acc_failed g)
+        (match e with
+         | TrEstablished p c _ _ true => if has_call 5 c o then [p] else []
+         | AcceptDone c false =>
+             if mem c (owed_acc g) then match lookup c l with Some (p, _) => [p] | None => [] end else []
+         | _ => [] end ++ accf_peers g).
 
 Definition count_n (x : N) (l : list N) : nat := length (filter (N.eqb x) l).
 
-(* feasible = only events the transport contract allows, all transport calls succeed *)
+(* feasible = only events the transport contract allows, the open / dial / negotiate calls succeed.
+   A transport that cannot START a connection the manager accepted (accept() returns Err, or the
+   accept future resolves to Err because a protocol could not be told) is an ordinary event: the
+   attempt it ends is excused from the never-silence clause (acc_failed), everything else — and in
+   particular "the peer is not wedged" — is judged across it. *)
 Definition ev_feasible (L : limits) (e : ev) (g : led) (l : live_t) : bool :=
   ev_live L e &&
   match e with
@@ -387,11 +403,10 @@ Definition ev_feasible (L : limits) (e : ev) (g : led) (l : live_t) : bool :=
   | TrOpened c t f => negb f && mem_pair (c, t) (owed_open g)
   | TrOpenFailure c t p => mem_pair (c, t) (owed_open g) && (match lookup c (attempts g) with Some q => q =? p | None => false end)
   | TrEstablished p c _ lst f =>
-      negb f &&
       if lst then mem c (allocated g)
       else mem c (owed_neg g) && (match lookup c (attempts g) with Some q => q =? p | None => false end)
   | TrPendingInbound _ _ => true
-  | AcceptDone c ok => ok && mem c (owed_acc g)
+  | AcceptDone c ok => mem c (owed_acc g)
   | Closed p c => (match lookup c l with Some (q, _) => q =? p | None => false end) && negb (mem c (owed_acc g))
   | AllocConn => true
   | CmdDialShape _ => true
@@ -406,7 +421,11 @@ Definition c05_quiescent_ok (o : obs) (g : led) : bool :=
   forallb (fun a : N * N =>
              let c := fst a in
              (Nat.eqb (count_n c (terminals g)) 1) ||
-             (mem c (superseded g) && mem (snd a) (reported g))) (attempts g) &&
+             (mem c (superseded g) && mem (snd a) (reported g)) ||
+             (* the connection of this attempt, or the connection that superseded it, was accepted by
+                the manager and could then not be started by the transport *)
+             (Nat.eqb (count_n c (terminals g)) 0 && mem c (acc_failed g)) ||
+             (mem c (superseded g) && mem (snd a) (accf_peers g))) (attempts g) &&
   forallb (fun s : N * (N * (N * N)) =>
              let t := fst (snd s) in (t =? 0) || (t =? 4) || (t =? 5)) (o_states o).
 
@@ -426,6 +445,27 @@ Definition choice_ok_obs (L : limits) (po : obs) (p : N) (mask : N) : bool :=
       (N.of_nat (length ts) <=? k) && (if nt + nw <=? k then subset ks ts else true)
   end.
 
+(* ---- wedging judged from ground truth: the ledger recomputed from the events, never the
+   implementation's own peer state ----
+   in flight: an accepted attempt for p that a transport still owes an answer for;
+   idle: the recomputed ledger holds NO live connection of p (every connection that was established
+   either failed its accept or was closed) and no dial is in flight. *)
+Definition in_flight (g : led) (p : N) : bool :=
+  existsb (fun a : N * N =>
+             (snd a =? p) &&
+             (existsb (fun y : N * N => fst y =? fst a) (owed_open g) || mem (fst a) (owed_neg g)))
+          (attempts g).
+Definition idle (g : led) (l : live_t) (p : N) : bool := (count_peer p l =? 0) && negb (in_flight g p).
+
+(* after every step: a peer that is idle by ground truth is recorded as plainly disconnected (the
+   dump lists the non-default states only), and every connection the implementation records as
+   established for a peer is a live connection of that peer in the recomputed ledger *)
+Definition c05_wedge_ok (o : obs) (g' : led) (l' : live_t) : bool :=
+  forallb (fun s : N * (N * (N * N)) => negb (idle g' l' (fst s))) (o_states o) &&
+  forallb (fun s : N * (N * (N * N)) =>
+             forallb (fun c => match lookup c l' with Some (q, _) => q =? fst s | None => false end)
+                     (est_view o (fst s))) (o_states o).
+
 Definition same_states (po o : obs) : bool :=
   list_eqb (fun x y : N * (N * (N * N)) =>
               (fst x =? fst y) && (fst (snd x) =? fst (snd y)) &&
@@ -433,8 +473,12 @@ Definition same_states (po o : obs) : bool :=
            (o_states po) (o_states o) &&
   list_eqb (fun x y : N * N => (fst x =? fst y) && (snd x =? snd y)) (o_pending po) (o_pending o).
 
-Definition c05_step_ok (L : limits) (prev : option obs) (e : ev) (o : obs) (g' : led) : bool :=
+Definition c05_step_ok (L : limits) (prev : option obs) (e : ev) (o : obs) (g : led) (l : live_t)
+           (g' : led) (l' : live_t) : bool :=
   let po := pobs prev in
+  (* dialable: the implementation says so, or the ground truth says so *)
+  let free := fun p => (state_tag po p =? 0) || idle g l p in
+  c05_wedge_ok o g' l' &&
   (* never two terminal outputs for one attempt *)
   forallb (fun c => Nat.leb (count_n c (terminals g')) 1) (terminals g') &&
   (* no panic / debug assertion on a feasible history *)
@@ -471,7 +515,7 @@ Definition c05_step_ok (L : limits) (prev : option obs) (e : ev) (o : obs) (g' :
   match e with
   | CmdDialPeer p _ [] | HDialPeer p _ [] _ =>
       let known := match lookup p (o_known po) with Some (a, b) => 0 <? a + b | None => false end in
-      if (state_tag po p =? 0) && known && negb (p =? LOCAL) &&
+      if free p && known && negb (p =? LOCAL) &&
          strictly_under (max_out L) (N.of_nat (length (o_outs po)))
       then (o_ret o =? 1) &&
            match lookup p (o_states o) with
@@ -489,7 +533,7 @@ Definition c05_step_ok (L : limits) (prev : option obs) (e : ev) (o : obs) (g' :
   | CmdDialAddr _ _ false | CmdDialShape _ | HDialAddr _ _ =>
       match dial_target L e with
       | Some p =>
-          if (state_tag po p =? 0) && strictly_under (max_out L) (N.of_nat (length (o_outs po)))
+          if free p && strictly_under (max_out L) (N.of_nat (length (o_outs po)))
           then (o_ret o =? 1) && (match calls_of 2 o with [_] => true | _ => false end)
           else true
       | None => true
@@ -503,20 +547,21 @@ Fixpoint c05_ok (ex1 ex2 : bool) (L : limits) (prev : option obs) (es : list ev)
   | _, [] => true
   | e :: es', o :: tr' =>
       let feas' := feas && ev_feasible L e g l in
-      let g0 := led_step L prev e o g in
+      let g0 := led_step L prev e o g l in
       (* ex2: requests of known finding class 2 are not judged *)
       let g' := if ex2 then mkLed (attempts g0) (terminals g0) (owed_open g0) (owed_neg g0) (owed_acc g0)
                                   (superseded g0) (reported g0) (limit_rejected g0) (allocated g0) [] (silent_bad g0)
-                                  (fail_log g0)
+                                  (fail_log g0) (acc_failed g0) (accf_peers g0)
                 else g0 in
       let l' := live_step e o l in
       (if feas' then
-         c05_step_ok L prev e o g' &&
+         c05_step_ok L prev e o g l g' l' &&
          (if quiescent g' then
             (* ex1: attempts of known finding class 1 are not judged *)
             c05_quiescent_ok o (if ex1
                                 then mkLed (filter (fun a : N * N => negb (mem (fst a) (limit_rejected g'))) (attempts g'))
                                            (terminals g') [] [] [] (superseded g') (reported g') [] [] [] [] []
+                                           (acc_failed g') (accf_peers g')
                                 else g')
           else true)
        else true) &&
